@@ -188,7 +188,7 @@ func (r *generateReader) ReadByte() (byte, error) {
 			if errMsg != "" {
 				return 0, r.parseError(errMsg, si+3+sep)
 			}
-			if r.start+offset < 0 || r.end+offset > 1<<31-1 {
+			if offset < -r.start || offset > 1<<31-1-r.end {
 				return 0, r.parseError("bad offset in $GENERATE", si+3+sep)
 			}
 
